@@ -122,17 +122,6 @@ fn make_array(rng: &mut Rng, kind: u64, n: usize, nullable: bool) -> (ArrayRef, 
     }
 }
 
-/// value offsets of a string/binary array and the offset width in bytes
-fn string_offsets(arr: &ArrayRef) -> Option<(Vec<u64>, u64)> {
-    use arrow_array::cast::AsArray;
-    match arr.data_type() {
-        DataType::Utf8 => Some((arr.as_string::<i32>().value_offsets().iter().map(|o| *o as u64).collect(), 4)),
-        DataType::Binary => Some((arr.as_binary::<i32>().value_offsets().iter().map(|o| *o as u64).collect(), 4)),
-        DataType::LargeUtf8 => Some((arr.as_string::<i64>().value_offsets().iter().map(|o| *o as u64).collect(), 8)),
-        _ => None,
-    }
-}
-
 fn round_trip(rt: &tokio::runtime::Runtime, field: Field, arrays: Vec<ArrayRef>, version: LanceFileVersion) -> Result<bool, String> {
     round_trip_v(rt, field, arrays, version, false)
 }
@@ -216,12 +205,7 @@ pub fn run(args: &Args, sink: &mut Sink, rng: &mut Rng) {
         sink.count(&format!("e2e:{}", name.split(':').next().unwrap()));
         sink.count(&format!("e2e:compression={}", if comp.is_empty() { "default" } else { comp }));
         sink.nontrivial(&format!("e2e:{name}:{n}:{nullable}:{:?}:{k}", md));
-        // variable-width inputs inside the known binary chunking class are attributed to it
-        let known = string_offsets(&arr).map(|(o, bw)| crate::variable::binary_known_class(&o, bw)).unwrap_or(false);
-        let class = if known { Some("Known_C26_binary_doubling_overshoot") } else { None };
-        if known {
-            sink.count("e2e:in-known-binary-class");
-        }
+        let class: Option<&str> = None;
         match round_trip(&rt, field, arrays, version) {
             Ok(true) => sink.oracle_ok(),
             Ok(false) => sink.oracle_fail(class, "file round trip returned different values", human),
@@ -229,19 +213,24 @@ pub fn run(args: &Args, sink: &mut Sink, rng: &mut Rng) {
         }
     }
 
-    // fixed regression input of the known finding: 256 short unique strings then 256 x 255 random bytes
-    {
+    // fixed regression input of the defect repaired in repo commit b9f1526 (must round trip now):
+    // 256 short unique strings then 256 x 255 random bytes, plus 512 short + 512 x 250
+    for (short, long, len, comp) in [(256usize, 256usize, 255usize, ""), (512, 512, 250, ""), (512, 512, 250, "none")] {
         use arrow_array::StringArray;
         let mut r2 = Rng::new(26);
-        let strs: Vec<String> = (0..512).map(|i| if i < 256 { format!("{:x}", i) } else { (0..255).map(|_| (b' ' + r2.below(90) as u8) as char).collect() }).collect();
+        let strs: Vec<String> = (0..short + long).map(|i| if i < short { format!("{:x}", i) } else { (0..len).map(|_| (b' ' + r2.below(90) as u8) as char).collect() }).collect();
         let arr: ArrayRef = Arc::new(StringArray::from(strs));
-        let field = Field::new("c", DataType::Utf8, true);
-        let human = json!({"codec": "e2e", "array": "utf8: 256 short unique strings then 256 random 255-byte strings", "n": 512, "version": "2.1"});
-        sink.count("e2e:known-binary-regression");
+        let mut md = HashMap::new();
+        if !comp.is_empty() {
+            md.insert("lance-encoding:compression".to_string(), comp.to_string());
+        }
+        let field = Field::new("c", DataType::Utf8, true).with_metadata(md);
+        let human = json!({"codec": "e2e", "array": format!("utf8: {short} short unique strings then {long} random {len}-byte strings"), "compression": comp, "version": "2.1"});
+        sink.count("e2e:binary-skew-regression");
         match round_trip(&rt, field, vec![arr], LanceFileVersion::V2_1) {
             Ok(true) => sink.oracle_ok(),
-            Ok(false) => sink.oracle_fail(Some("Known_C26_binary_doubling_overshoot"), "file round trip returned different values", human),
-            Err(e) => sink.oracle_fail(Some("Known_C26_binary_doubling_overshoot"), &format!("file round trip failed: {e}"), human),
+            Ok(false) => sink.oracle_fail(None, "file round trip returned different values", human),
+            Err(e) => sink.oracle_fail(None, &format!("file round trip failed: {e}"), human),
         }
     }
 
